@@ -474,15 +474,19 @@ pub fn run_ops<G: AffineRepr, CS: RoleCS<G>>(cs: &mut CS, ops: &[Op], shr: &Rc<R
             Op::Mul => {
                 let (lca, va, mut ta) = sh.lc(phase2, false);
                 let (lcb, vb, mut tb) = sh.lc(phase2, false);
-                let ca = sh.draw("k");
-                let cb = sh.draw("k");
+                // the honest input wires are fresh values; the constants of the two input combinations
+                // are computed so that the combinations evaluate to them (keeps every wire value a
+                // variable or a product of two variables, whatever the nesting of multiplications)
+                let l0 = sh.draw("w");
+                let r0 = sh.draw("w");
+                let ca = sh.carry("const", l0 - va);
+                let cb = sh.carry("const", r0 - vb);
                 let i = sh.gates.len();
                 let gl = sh.gate_err(i, 0);
                 let gr = sh.gate_err(i, 1);
                 let go = sh.gate_err(i, 2);
-                // honest wires: l = <lca> + ca, r = <lcb> + cb
-                let l = va + ca + gl;
-                let r = vb + cb + gr;
+                let l = l0 + gl;
+                let r = r0 + gr;
                 let o = l * r + go;
                 let (lv, rv, ov) =
                     cs.multiply(lca + LinearCombination::from(ca), lcb + LinearCombination::from(cb));
